@@ -696,7 +696,7 @@ Lemma step_ok c ch s o s' rp :
   Inv c s -> step c ch s o = (s', rp) ->
   Inv c s' /\ forall r, rp = Some r -> reply_good c s o s' r.
 Proof.
-  intros HI. destruct o as [now m|now m|m|m|x|x|now]; simpl.
+  intros HI. destruct o as [now m|now m|m|m|x|x|now|k tt]; simpl.
   - intros H. destruct (discover_ok c ch now _ m s' rp (inv_parse c s m HI) H) as [A B].
     split; auto. intros r Hr. exists m. split; [reflexivity|]. left. apply B. exact Hr.
   - intros H. destruct (request_ok c now _ m s' rp (inv_parse c s m HI) H) as [A B].
@@ -710,6 +710,12 @@ Proof.
   - intros H. pinv H. split; [|intros r Hr; discriminate].
     apply inv_set_ss; auto. intros y. unfold tracked, sess_find. rewrite hosts_uncapture. auto.
   - intros H. pinv H. split; [|intros r Hr; discriminate]. apply inv_free. exact HI.
+  - intros H. pinv H. split; [|intros r Hr; discriminate].
+    destruct (tget k (tbl s)) as [l|] eqn:T; auto. apply tget_in in T as [Hin Hk].
+    destruct (inv_leases c s HI l Hin) as [Lo Li].
+    apply inv_put; auto.
+    + split; simpl; auto.
+    + simpl. intros S x Hx. apply (uniq_not_acked c s l x); auto.
 Qed.
 
 Lemma inv_init c : Inv c (init c).
